@@ -1106,7 +1106,7 @@ def run(ck):
             fp_plan.append((kind, variant, "orig"))
         fp_plan.append((kind, "plain", "clone"))
         fp_plan.append((kind, rng.choice(VARIANT_LIST), "clone2"))
-    transient_every = 40 if quick else 1
+    transient_every = 40 if quick else 10
     transient_budget = 6 if quick else 10 ** 9
     for n, (kind, variant, how) in enumerate(fp_plan):
         clients = [world.new_client(variant if how == "orig" else "plain")]
@@ -1128,6 +1128,8 @@ def run(ck):
                 clear_memo_caches(world, clients)
             spec = gen_spec(rng, kind, "f%d" % n)
             te = transient_every if (mode == "cold" and n < transient_budget) or not quick else 0
+            if not quick and mode == "cold" and how == "orig" and variant == "plain":
+                te = 1          # a snapshot at every call/return event inside suds
             m = runner.fp.measure(clients, which, kind, spec, transient_every=te)
             term = "(mkfp %s %s %s %s)" % (
                 cN(m["client_no"]), clist([ow_term(d) for d in m["writes"]], "obs_write"),
@@ -1391,16 +1393,19 @@ ANCHOR_FILES = ("binding.py", "multiref.py", "client.py", "properties.py", "wsdl
                 "sxbasic.py", "document.py", "rpc.py")
 
 
-def pick_points(rng, names, budget, exhaustive):
-    """Preemption points (1-based event numbers of the preempted thread)."""
+def pick_points(rng, names, budget, exhaustive, part=0, parts=1):
+    """Preemption points (1-based event numbers of the preempted thread).
+    Sampled mode: the first occurrence of every distinct (file, function,
+    event) is a candidate; the candidates are dealt out over the `parts`
+    scenarios that preempt this call kind, anchored modules first."""
     total = len(names)
     if exhaustive:
         return list(range(1, total + 1))
     first = {}
     for i, nm in enumerate(names, 1):
         first.setdefault(nm, i)
-    anchored = sorted(i for nm, i in first.items() if nm.split(":")[0] in ANCHOR_FILES)
-    others = sorted(i for nm, i in first.items() if nm.split(":")[0] not in ANCHOR_FILES)
+    anchored = sorted(i for nm, i in first.items() if nm.split(":")[0] in ANCHOR_FILES)[part::parts]
+    others = sorted(i for nm, i in first.items() if nm.split(":")[0] not in ANCHOR_FILES)[part::parts]
     pts = set()
     # the steps of MultiRef.process and of get_reply: first occurrence of each
     # function event plus a sample of the later ones
@@ -1412,12 +1417,13 @@ def pick_points(rng, names, budget, exhaustive):
             else:
                 later.append(i)
     rng.shuffle(later)
-    pts.update(later[: max(2, budget // 4)])
+    pts.update(later[: max(2, budget // 6)])
     rng.shuffle(anchored)
     rng.shuffle(others)
     take = max(0, budget - len(pts))
-    pts.update(anchored[: (2 * take) // 3])
-    pts.update(others[: take - min(len(anchored), (2 * take) // 3)])
+    n_anch = min(len(anchored), (3 * take) // 5)
+    pts.update(anchored[:n_anch])
+    pts.update(others[: take - n_anch])
     while len(pts) < min(budget, total):
         pts.add(rng.randrange(1, total + 1))
     return sorted(pts)
@@ -1504,9 +1510,14 @@ def schedule_cases(ck, world, runner, rng, quick, memo_cells, suspicious_fp, fp_
     pairs = [(a, b) for a in KIND_LIST for b in KIND_LIST]
     rng.shuffle(pairs)
     if quick:
-        # every kind preempted at least ~6 times with an encoded and a non-encoded partner
-        pairs = pairs[:21]
-        per_pair = 30
+        # every kind is the preempted one in three scenarios: against an rpc/encoded
+        # call, against a call of its own kind, against a random other kind
+        pairs = []
+        for a in KIND_LIST:
+            pairs.append((a, rng.choice(["enc-item", "enc-echo"])))
+            pairs.append((a, a))
+            pairs.append((a, rng.choice([k for k in KIND_LIST if k != a])))
+        per_pair = 50
     else:
         sel = [("enc-echo", "enc-item"), ("enc-item", "enc-echo"), ("doc-echo", "enc-echo"),
                ("enc-echo", "doc-find"), ("lit-item", "enc-item"), ("doc-find", "doc-echo2"),
@@ -1546,7 +1557,9 @@ def schedule_cases(ck, world, runner, rng, quick, memo_cells, suspicious_fp, fp_
                 event_cache[ekb] = runner.count_events(Setup(relation, variants, [setup.threads[1]]), 0)
             totals = [total_a, event_cache[ekb][0]]
             exhaustive = (not quick) and pn < 8
-            pts = pick_points(rng, names, 200 if (ka in hot and quick) else (per_pair or 60), exhaustive)
+            part = sum(1 for q in pairs[:pn] if q[0] == ka) % 3
+            pts = pick_points(rng, names, 200 if (ka in hot and quick) else (per_pair or 60), exhaustive,
+                              part=part, parts=3)
             clients = None
             for k in pts:
                 if time.time() > t_budget:
